@@ -115,7 +115,9 @@ def gen_graph(rng, n_ns=None, n_nodes=None, hostile=True, closed=True, values_ok
                     continue
                 if a in ("ParentNodeId", "MethodDeclarationId"):
                     n["attrs"][a] = rng.choice(vis_attr(key[0], keys) + base_targets) if closed else rng.choice(keys + base_targets + [(n["id"][0], "i", "999999")])
-                elif a in ("IsAbstract", "Symmetric", "Historizing"):
+                elif a in ("IsAbstract", "Symmetric"):
+                    n["attrs"][a] = rng.choice(["true", "false", "true", "false", "1"])      # "1" is xs:boolean's other spelling of true
+                elif a == "Historizing":
                     n["attrs"][a] = rng.choice(["true", "false"])
                 elif a == "ValueRank":
                     n["attrs"][a] = str(rng.choice([-3, -2, -1, 0, 1, 2, 3]) if not f["attr_overflow"] else rng.choice([-1, 1, 127, 128, 200]))
@@ -467,7 +469,7 @@ def expected_rows(g):
             if isinstance(v, tuple):
                 attrs[a] = list(v)
             elif a in ("IsAbstract", "Symmetric"):
-                attrs[a] = (v == "true")
+                attrs[a] = (v in ("true", "1"))
             elif a in ("ValueRank", "AccessLevel", "EventNotifier", "MinimumSamplingInterval"):
                 attrs[a] = int(v)
             else:
